@@ -8,9 +8,9 @@ CONSTANTS
   FloorN = 1
   Variants = {"mem"}
   Caps = {2}
-  AllowEvictLive = FALSE
-  AllowForeignDelete = FALSE
-  AllowForeignShorten = FALSE
+  AllowEvictLive = TRUE
+  AllowForeignDelete = TRUE
+  AllowForeignShorten = TRUE
   MaxHist = 0
 INVARIANTS TypeOK MutualExclusion OnlyOwnerReleases NeverTainted
 VIEW view
